@@ -124,12 +124,12 @@ var errServerPanic = fmt.Errorf("language server panicked")
 // lspFormat opens the text in a fresh language server (real lsp.Server reading
 // framed JSON-RPC from an in-memory stream), asks for textDocument/formatting with
 // the given indentation option, and applies the returned edits to the text.
-func lspFormat(text string, insertSpaces bool) (out string, err error) {
+func lspFormat(text string, insertSpaces bool) (res string, err error) {
 	const uri = "file:///t.sql"
 	defer func() {
 		// a server that panics on a text is the business of C18, not of this property
 		if r := recover(); r != nil {
-			out, err = "", errServerPanic
+			res, err = "", errServerPanic
 		}
 	}()
 	var in bytes.Buffer
